@@ -28,6 +28,9 @@ impl WakeupIntConfig {
     pub fn get_config0(&self) -> WakeupIntConfig0 {
         self.wkup_int_config0
     }
+    pub fn set_config0(&mut self, wkup_int_config0: WakeupIntConfig0) {
+        self.wkup_int_config0 = wkup_int_config0;
+    }
 }
 
 /// Configure Wake-up Interrupt settings
